@@ -32,13 +32,27 @@ def rule_plan_records_dependencies(ctx, rid):
         okc = len(c.args) == 3 and [norm(a) for a in c.args[:2]] == ad.pos_params[1:3] and norm(c.args[2]) == "Dependency()"
         ctx.ob(rid, f"{ad.short}/edge-shape", okc, loc(ad, c), "edge source -> target with a plain Dependency key" if okc else
                "recorded edge is not (source, target, Dependency())", norm(c))
+    # argument edges: evaluated - plan._call(frame, fn, x, y, x, k1=z, k2=x) records exactly one edge per argument, with its
+    # position / name, whatever loops or helper objects do the recording
+    from ..absval import AbsRaise, Stub
+    from . import runrules as R_
+    from .rewriterules import World
     pc = m.method("Plan", "_call", "PLAN")
-    loops = [n for n in pc.node.body if isinstance(n, ast.For)]
-    ok = len(loops) == 2 and all(len(l.body) == 1 and "add_edge" in norm(l.body[0]) for l in loops) and \
-        "enumerate(args)" in norm(loops[0].iter) and "enumerate(kwargs.items())" in norm(loops[1].iter)
+    rr_ = R_.discover(m, E.discover(m))
+    w = World(m, rr_)
+    x, y, z = w.call("x"), w.call("y"), w.call("z")
+    try:
+        c = w.interp.call_func(pc, None, ["FRAME", Stub("fn", None), x, y, x], {"k1": z, "k2": x}, bound_self=w.plan)
+    except AbsRaise as e:
+        raise AnalysisError(f"abstract evaluation of Plan._call raised {e.value!r}")
+    w.names[id(c)] = "c"
+    got = {e_ for e_ in w.edges() if e_[1] == "c"}
+    want = {("x", "c", "Pos(0)"), ("y", "c", "Pos(1)"), ("x", "c", "Pos(2)"), ("z", "c", "Kw(k1,0)"), ("x", "c", "Kw(k2,1)")}
+    ok = got == want
     ctx.ob(rid, f"{pc.short}/argument-edges", ok, loc(pc),
            "one unconditional argument edge per positional and per keyword argument" if ok else
-           "argument edges are not added unconditionally for every positional and keyword argument")
+           f"argument edges are not added unconditionally for every positional and keyword argument: f(x, y, x, k1=z, k2=x) recorded "
+           f"{sorted(got)}")
 
 
 def rule_kwargs_positional_only(ctx, rid):
